@@ -15,13 +15,12 @@
                      the parameter [choice] and every theorem holds for all choices
      find            SynchronizedMessages.get_all
      search_model    search_mailbox + the id list of do_search *)
-From PV Require Import Base.Prelude Wire.SeqSet Search.Text Search.Keys Search.Msg.
+From PV Require Import Base.Prelude Wire.SeqSet Search.Text Search.Keys Search.Msg
+     Search.KeyRow Search.KeyTable.
 
 Record params := mkParams { max_seq : N; max_uid : N }.
 Definition params_of (v : view) : params := mkParams (v_exists v) (v_maxuid v).
 
-Inductive dop := DLt | DEq | DGe.        (* '<'  '='  '>=' *)
-Inductive sop := SzLt | SzGt.            (* '<'  '>' *)
 
 Inductive crit :=
 | CAll
@@ -41,44 +40,41 @@ Inductive crit :=
 
 Definition mem_name (n : kname) (l : list kname) : bool := existsb (kname_eqb n) l.
 
-(* the if/elif chain of SearchCriteria.of for the non-recursive keys *)
+(* The if/elif chain of SearchCriteria.of, read from the GENERATED dispatch
+   table (Search/KeyTable.v): key name -> criteria class with its constant
+   constructor arguments.  [build_crit] is the constructor call: it takes the
+   filter of the key through the typed accessor (filter_datetime, filter_int,
+   ...; a filter of another Python type -> TypeError). *)
+Definition row_crit (n : kname) : option critk :=
+  option_map d_crit (find_drow dispatch_table n).
+
+Definition build_crit (p : params) (ck : critk) (f : afilt) : result crit :=
+  match ck with
+  | CkAll => Ok CAll
+  | CkSeq => match f with
+             | FSeq uid s => Ok (CSeq uid s (seq_iter (if uid then max_uid p else max_seq p) s))
+             | _ => Exc EXC_TYPE end
+  | CkKeySet | CkOr => Exc EXC_TYPE        (* filter is not a frozenlist / a pair of keys *)
+  | CkEmailId => match f with FObj id => Ok (CEmailId id) | _ => Exc EXC_TYPE end
+  | CkThreadId => match f with FObj id => Ok (CThreadId id) | _ => Exc EXC_TYPE end
+  | CkFlag fl e => Ok (CHasFlag (flag_bytes fl) e)
+  | CkKeyword e => match f with FFlag x => Ok (CHasFlag x e) | _ => Exc EXC_TYPE end
+  | CkNew => Ok CNew
+  | CkDate op => match f with FDate d => Ok (CDate d op) | _ => Exc EXC_TYPE end
+  | CkHdrDate op => match f with FDate d => Ok (CHdrDate d op) | _ => Exc EXC_TYPE end
+  | CkSize op => match f with FInt k => Ok (CSize k op) | _ => Exc EXC_TYPE end
+  | CkEnv h => match f with FStr s => Ok (CEnv h s) | _ => Exc EXC_TYPE end
+  | CkHeader => match f with
+                | FHdr name value => bind (encode_ascii name) (fun nb => Ok (CHeader nb value))
+                | _ => Exc EXC_TYPE end
+  | CkBody wh => match f with FStr s => Ok (CBody (utf8_encode s) wh) | _ => Exc EXC_TYPE end
+  end.
+
+(* a name without a row falls off the chain: raise SearchNotAllowed(key) *)
 Definition crit_atom (p : params) (n : kname) (f : afilt) : result crit :=
-  let flag (s : sysflag) (e : bool) := Ok (CHasFlag (flag_bytes s) e) in
-  match n with
-  | NSEQSET => match f with
-               | FSeq uid s => Ok (CSeq uid s (seq_iter (if uid then max_uid p else max_seq p) s))
-               | _ => Exc EXC_TYPE end
-  | NKEYSET | NOR => Exc EXC_TYPE          (* filter is not a frozenlist / a pair of keys *)
-  | NALL => Ok CAll
-  | NEMAILID => match f with FObj id => Ok (CEmailId id) | _ => Exc EXC_TYPE end
-  | NTHREADID => match f with FObj id => Ok (CThreadId id) | _ => Exc EXC_TYPE end
-  | NANSWERED => flag FAnswered true | NUNANSWERED => flag FAnswered false
-  | NDELETED => flag FDeleted true | NUNDELETED => flag FDeleted false
-  | NDRAFT => flag FDraft true | NUNDRAFT => flag FDraft false
-  | NFLAGGED => flag FFlagged true | NUNFLAGGED => flag FFlagged false
-  | NRECENT => flag FRecent true | NOLD => flag FRecent false
-  | NSEEN => flag FSeen true | NUNSEEN => flag FSeen false
-  | NKEYWORD => match f with FFlag x => Ok (CHasFlag x true) | _ => Exc EXC_TYPE end
-  | NUNKEYWORD => match f with FFlag x => Ok (CHasFlag x false) | _ => Exc EXC_TYPE end
-  | NNEW => Ok CNew
-  | NBEFORE => match f with FDate d => Ok (CDate d DLt) | _ => Exc EXC_TYPE end
-  | NON => match f with FDate d => Ok (CDate d DEq) | _ => Exc EXC_TYPE end
-  | NSINCE => match f with FDate d => Ok (CDate d DGe) | _ => Exc EXC_TYPE end
-  | NSENTBEFORE => match f with FDate d => Ok (CHdrDate d DLt) | _ => Exc EXC_TYPE end
-  | NSENTON => match f with FDate d => Ok (CHdrDate d DEq) | _ => Exc EXC_TYPE end
-  | NSENTSINCE => match f with FDate d => Ok (CHdrDate d DGe) | _ => Exc EXC_TYPE end
-  | NSMALLER => match f with FInt k => Ok (CSize k SzLt) | _ => Exc EXC_TYPE end
-  | NLARGER => match f with FInt k => Ok (CSize k SzGt) | _ => Exc EXC_TYPE end
-  | NBCC => match f with FStr s => Ok (CEnv HBcc s) | _ => Exc EXC_TYPE end
-  | NCC => match f with FStr s => Ok (CEnv HCc s) | _ => Exc EXC_TYPE end
-  | NFROM => match f with FStr s => Ok (CEnv HFrom s) | _ => Exc EXC_TYPE end
-  | NSUBJECT => match f with FStr s => Ok (CEnv HSubject s) | _ => Exc EXC_TYPE end
-  | NTO => match f with FStr s => Ok (CEnv HTo s) | _ => Exc EXC_TYPE end
-  | NHEADER => match f with
-               | FHdr name value => bind (encode_ascii name) (fun nb => Ok (CHeader nb value))
-               | _ => Exc EXC_TYPE end
-  | NBODY => match f with FStr s => Ok (CBody (utf8_encode s) false) | _ => Exc EXC_TYPE end
-  | NTEXT => match f with FStr s => Ok (CBody (utf8_encode s) true) | _ => Exc EXC_TYPE end
+  match row_crit n with
+  | Some ck => build_crit p ck f
+  | None => Exc EXC_NOTALLOWED
   end.
 
 (* key.inverse -> InverseSearchCriteria(key.not_inverse): the same dispatch
@@ -92,6 +88,8 @@ Fixpoint crit_of (dis : list kname) (p : params) (k : skey) : result crit :=
     if mem_name n dis then Exc EXC_NOTALLOWED else wrap_inv inv (crit_atom p n f)
   | SKSet l inv =>
     if mem_name NKEYSET dis then Exc EXC_NOTALLOWED else
+    match row_crit NKEYSET with
+    | Some CkKeySet =>
     wrap_inv inv
       (bind ((fix go (l : list skey) : result (list crit) :=
                 match l with
@@ -100,10 +98,16 @@ Fixpoint crit_of (dis : list kname) (p : params) (k : skey) : result crit :=
                             bind (go r) (fun cs => Ok (c :: cs)))
                 end) l)
             (fun cs => Ok (CSet cs)))
+    | _ => Exc EXC_NOTALLOWED      (* KEYSET not dispatched to SearchCriteriaSet *)
+    end
   | SKOr a b inv =>
     if mem_name NOR dis then Exc EXC_NOTALLOWED else
+    match row_crit NOR with
+    | Some CkOr =>
     wrap_inv inv (bind (crit_of dis p a) (fun ca =>
                   bind (crit_of dis p b) (fun cb => Ok (COr ca cb))))
+    | _ => Exc EXC_NOTALLOWED
+    end
   end.
 
 Fixpoint crits_of (dis : list kname) (p : params) (l : list skey) : result (list crit) :=
@@ -129,9 +133,9 @@ Definition date_op (op : dop) (msg_date when : date) : bool :=
   end.
 
 (* LoadedMessage.get_header(name): parsed[name] lower-cases the name and looks
-   it up in the map keyed by the lower-cased field names *)
+   it up in the map keyed by the stripped, lower-cased written field names *)
 Definition get_header (name : bytes) (m : msg) : list str :=
-  map snd (filter (fun h => bytes_eqb (fst h) (lower name)) (m_headers m)).
+  map snd (filter (fun h => bytes_eqb (header_key (fst h)) (lower name)) (m_headers m)).
 
 (* BaseLoadedMessage.contains(value, header=...) *)
 Fixpoint contains_parts (needle : bytes) (with_header : bool) (first : bool)
@@ -216,19 +220,21 @@ Definition model_matches (k : skey) (m : msg) (v : view) : result bool :=
 Definition REQ_NONE : N := 0.  Definition REQ_METADATA : N := 1.
 Definition REQ_HEADER : N := 2.  Definition REQ_CONTENT : N := 6.
 
+(* per key name from the GENERATED table; a name the table does not know
+   takes the final else of the property: METADATA *)
 Definition atom_requirement (n : kname) : N :=
-  match n with
-  | NALL => REQ_NONE
-  | NSENTBEFORE | NSENTON | NSENTSINCE | NBCC | NCC | NFROM | NSUBJECT | NTO | NHEADER => REQ_HEADER
-  | NBODY | NTEXT | NLARGER | NSMALLER => REQ_CONTENT
-  | _ => REQ_METADATA      (* incl. the ill-typed NKEYSET/NOR atoms, which raise TypeError in of() *)
+  match find_drow dispatch_table n with
+  | Some r => d_req r
+  | None => REQ_METADATA
   end.
 
 Fixpoint requirement (k : skey) : N :=
   match k with
   | SKAtom n _ _ => atom_requirement n
-  | SKSet l _ => fold_right (fun x acc => N.lor (requirement x) acc) REQ_NONE l
-  | SKOr a b _ => N.lor (requirement a) (requirement b)
+  | SKSet l _ =>
+    N.lor (atom_requirement NKEYSET)
+          (fold_right (fun x acc => N.lor (requirement x) acc) REQ_NONE l)
+  | SKOr a b _ => N.lor (atom_requirement NOR) (N.lor (requirement a) (requirement b))
   end.
 
 Definition requirement_of (prog : list skey) : N :=
@@ -238,7 +244,7 @@ Definition content_loaded (always : bool) (req : N) : bool :=
   always || negb (N.land req REQ_CONTENT =? 0)%N.
 
 Definition strip (m : msg) : msg :=
-  mkMsg (m_uid m) (m_seq m) (m_flags m) 0 (m_idate m) None [] [] (m_emailid m) (m_threadid m).
+  mkMsg (m_uid m) (m_seq m) (m_flags m) 0 (m_idate m) None None [] [] (m_emailid m) (m_threadid m).
 
 (* search_mailbox on a backend that loads content always (dict) or only on
    request (maildir) *)
